@@ -58,8 +58,9 @@ DelivCats(m) ==
                   THEN {"C03"} ELSE {})
             \cup (IF okStatus /\ m.label \in {"HIT", "REVALIDATED"} /\ m.src = "store" /\
                      \* (real seconds that went by since the behaviour began widen the window)
-                     ~(/\ o.age >= Tick * m.age /\ o.age <= Tick * m.age + F(Line, "elapsed", 1)
-                       /\ o.ttl >= Tick * m.ttl - F(Line, "elapsed", 1) /\ o.ttl <= Tick * m.ttl)
+                     \* and HTTP dates (Date, Expires) have whole-second granularity: one more second
+                     ~(/\ o.age >= Tick * m.age /\ o.age <= Tick * m.age + F(Line, "elapsed", 1) + 1
+                       /\ o.ttl >= Tick * m.ttl - F(Line, "elapsed", 1) - 1 /\ o.ttl <= Tick * m.ttl)
                   THEN {"C03"} ELSE {})
 
 \* a delivery the specification does not make in this step
